@@ -140,7 +140,22 @@ where
     if cost_to_free == 0 {
       return (Vec::new(), 0);
     }
-    self.state.lock().main.evict_items(cost_to_free, self.main_prot_capacity)
+    let mut state = self.state.lock();
+    let (mut victims, mut freed) = state.main.evict_items(cost_to_free, self.main_prot_capacity);
+    // The admission window holds resident entries too. With a small capacity (or one shard's
+    // small share of it) everything may sit in the window; if the main region cannot free
+    // enough, the window's oldest entries are nominated as well, otherwise the cache can
+    // never get back under its capacity.
+    while freed < cost_to_free {
+      match state.window.pop_back() {
+        Some((key, cost)) => {
+          freed += cost;
+          victims.push(key);
+        }
+        None => break,
+      }
+    }
+    (victims, freed)
   }
 
   fn clear(&self) {
